@@ -36,7 +36,7 @@ from cryptography.hazmat.primitives.ciphers.aead import ChaCha20Poly1305
 from cryptography.hazmat.primitives.kdf.hkdf import HKDF
 
 PROTOS = ("mrp", "companion", "airplay")
-COQ_PROTO = {"mrp": "MRP", "companion": "Companion", "airplay": "AirPlay"}
+COQ_PROTO = {"mrp": "MRP", "companion": "Companion", "airplay": "AirPlay", "airplay-glue": "AirPlay"}
 
 # --------------------------------------------------------------------------- independent crypto
 RAWPUB = dict(encoding=serialization.Encoding.Raw, format=serialization.PublicFormat.Raw)
@@ -444,22 +444,25 @@ class Patches:
         self.shim = Shim(self.W.urandom_seed)
         hap_srp.os = self.shim
         self.saved = []
-        for cls in (MrpPairVerifyProcedure, CompanionPairVerifyProcedure, AirPlayHapPairVerifyProcedure):
+        from pyatv.protocols.airplay import auth as ap_auth
+        others = [getattr(ap_auth, n) for n in ("AirPlayHapTransientPairVerifyProcedure", "AirPlayLegacyPairVerifyProcedure",
+                                                 "NullPairVerifyProcedure") if hasattr(ap_auth, n)]
+        for cls in [MrpPairVerifyProcedure, CompanionPairVerifyProcedure, AirPlayHapPairVerifyProcedure] + others:
             orig = cls.verify_credentials
             self.saved.append((cls, orig))
-            cls.verify_credentials = self._wrap(orig)
+            cls.verify_credentials = self._wrap(orig, cls.__name__)
         return self
 
-    def _wrap(self, orig):
+    def _wrap(self, orig, name):
         raw = self.raw
 
         async def verify_credentials(obj):
             try:
                 r = await orig(obj)
             except BaseException as ex:  # noqa
-                raw.append(("exc", ex))
+                raw.append(("exc", ex, name))
                 raise
-            raw.append(("ok", r))
+            raw.append(("ok", r, name))
             return r
         return verify_credentials
 
@@ -481,7 +484,8 @@ def obs_record(p, resp, pt, exc, keys):
     rd = resp.rounds[-1] if resp.rounds else {"cpub": None, "m2": None, "m3": None, "m4": None}
     return {
         "proto": p,
-        "raw": None if raw is None else ("Accept" if raw[0] == "ok" else classify(raw[1])),
+        "raw": None if raw is None else (("Accept" if raw[1] else "ReturnedFalse") if raw[0] == "ok" else classify(raw[1])),
+        "procedure": None if raw is None else raw[2],
         "raw_repr": None if raw is None or raw[0] == "ok" else repr(raw[1])[:120],
         "surfaced": classify(exc),
         "surfaced_repr": None if exc is None else repr(exc)[:160],
@@ -617,6 +621,16 @@ def fake_http(resp):
     class Http(HttpConnection):
         async def post(self, path, headers=None, body=None, allow_error=False):
             await asyncio.sleep(0)
+            if path == "/pair-setup":
+                # transient pairing (fixed PIN, no identity): any device can answer it
+                t = tlv_dec(body or b"")
+                seq = t.get(6) if isinstance(t, dict) else None
+                rnd = random.Random(resp.W.wseed)
+                if seq == b"\x01":
+                    ans = tlv_enc([(6, b"\x02"), (2, rnd.randbytes(16)), (3, b"\x7f" + rnd.randbytes(383))])
+                else:
+                    ans = tlv_enc([(6, b"\x04"), (4, rnd.randbytes(64))])
+                return HttpResponse("HTTP", "1.1", 200, "OK", {"content-type": "application/octet-stream"}, ans)
             if path != "/pair-verify":
                 return HttpResponse("HTTP", "1.1", 200, "OK", {}, b"")
             ans = resp.on_message(body or b"")
@@ -682,6 +696,99 @@ async def drive_airplay_rc(W, cvar, resp, pt):
             pass
     keys = conn.receive_processor is not before[0] or conn.send_processor is not before[1]
     return obs_record("airplay-rc", resp, pt, exc, keys)
+
+
+def announced_service(W, case):
+    from pyatv.const import Protocol
+    from pyatv.core import MutableService
+    an = case["announce"]
+    return MutableService("id", Protocol.AirPlay, 7000, dict(an["props"]), credentials=stored_string(W, an["stored"]))
+
+
+def stored_string(W, kind):
+    """service.credentials for a stored-credential kind"""
+    hx = lambda b: binascii.hexlify(b).decode()
+    if kind is None:
+        return None
+    if kind == "hap":
+        return W.creds_str()
+    if kind == "legacy":
+        return hx(W.client_id) + ":" + hx(W.client_seed)
+    if kind == "legacy4":
+        return ":" + hx(W.client_seed) + "::" + hx(W.client_id)
+    if kind == "transient":
+        return hx(b"transient") + ":::"
+    if kind == "null":
+        return ":::"
+    if kind == "invalid":
+        return hx(W.acc["A"].ltpk) + ":" + hx(W.client_seed) + "::"
+    raise ValueError(kind)
+
+
+async def drive_airplay_glue(W, case, resp, pt):
+    """verify_connection(extract_credentials(service), connection) - as atvproxy and the demo of the
+    seeded change do; the service carries the ANNOUNCED properties of the case."""
+    from pyatv.protocols.airplay.auth import extract_credentials, verify_connection
+    conn = fake_http(resp)
+    before = (conn.receive_processor, conn.send_processor)
+    exc = None
+    try:
+        await verify_connection(extract_credentials(announced_service(W, case)), conn)
+    except BaseException as ex:  # noqa
+        exc = ex
+    keys = conn.receive_processor is not before[0] or conn.send_processor is not before[1]
+    return obs_record("airplay-glue", resp, pt, exc, keys)
+
+
+async def drive_airplay_setup(W, case, resp, pt):
+    """pyatv.protocols.airplay.setup(core) on a service with the announced properties; every
+    SetupData it yields is connected (the remote-control tunnel is the one that verifies)."""
+    from pyatv import conf
+    from pyatv.const import Protocol
+    from pyatv.core import Core, CoreStateDispatcher, ProtocolStateDispatcher
+    from pyatv.protocols import airplay
+    from pyatv.protocols.airplay import ap2_session
+    from pyatv.settings import Settings
+    from pyatv.support.state_producer import StateProducer
+
+    conn = fake_http(resp)
+    before = (conn.receive_processor, conn.send_processor)
+
+    async def http_connect(address, port):
+        return conn
+
+    service = announced_service(W, case)
+    config = conf.AppleTV("127.0.0.1", "verif")
+    config.add_service(service)
+    core = Core(asyncio.get_event_loop(), config, service, Settings(), StateProducer(), types.SimpleNamespace(session=None),
+                lambda *a: (lambda: None), ProtocolStateDispatcher(Protocol.AirPlay, CoreStateDispatcher()))
+    saved = ap2_session.http_connect
+    ap2_session.http_connect = http_connect
+    exc = None
+    sds = []
+    try:
+        for sd in airplay.setup(core):
+            sds.append(sd)
+            if sd.protocol == Protocol.MRP:
+                await sd.connect()
+    except BaseException as ex:  # noqa
+        exc = ex
+    finally:
+        ap2_session.http_connect = saved
+        for sd in sds:
+            try:
+                sd.close()
+            except Exception:
+                pass
+    keys = conn.receive_processor is not before[0] or conn.send_processor is not before[1]
+    return obs_record("airplay-setup", resp, pt, exc, keys)
+
+
+def run_announced(p, W, case):
+    resp = Responder(W, case["spec"])
+    with Patches(W) as pt:
+        resp.shim = pt.shim
+        return vloop.run({"airplay-glue": drive_airplay_glue, "airplay-setup": drive_airplay_setup}[p], W, case, resp, pt)
 
 
 DRIVERS = {"mrp": drive_mrp, "companion": drive_companion, "airplay": drive_airplay, "airplay-rc": drive_airplay_rc}
@@ -923,7 +1030,7 @@ def oracle(case, res):
         p = o["proto"]
         # no_top: the procedure object was driven directly (no start()/verify_connection() around it);
         # airplay-rc: the set-up goes on after verification (and fails against the fake)
-        inner_only = bool(o.get("no_top")) or p == "airplay-rc"
+        inner_only = bool(o.get("no_top")) or p in ("airplay-rc", "airplay-setup")
         connected = (o["raw"] == "Accept") if inner_only else (o["surfaced"] is None)
         if connected and not genuine:
             errs.append(("C06:%s:forged-reply-accepted" % p,
@@ -931,6 +1038,8 @@ def oracle(case, res):
         if o["keys"] and (not genuine or (o["surfaced"] is not None and not inner_only) or o["raw"] != "Accept"):
             errs.append(("C06:%s:keys-enabled-without-verify" % p,
                          "%s installed encryption keys although verification did not succeed (%s, raised %s)" % (p, why, o["surfaced_repr"])))
+        if p in ("airplay-glue", "airplay-setup") and o["raw"] is None:
+            continue        # no procedure ran at all (nothing to connect / the set-up itself refused the announcement)
         if not connected and not fault and not genuine and not o.get("no_top") and o["surfaced"] != "EAuthentication":
             errs.append(("C06:%s:wrong-exception" % p,
                          "%s: a reply that does not prove the identity (%s) surfaced as %s instead of AuthenticationError" % (p, why, o["surfaced_repr"])))
@@ -1058,6 +1167,183 @@ def coq_files(items, per=150):
                "Eval vm_compute in (bad_indices (check_case cfg) cases).\n" % (nm.preamble(), ";\n".join(terms)))
         files.append(("cases_%03d" % (i // per), txt, chunk))
     return files
+
+
+# --------------------------------------------------------------------------- which procedure runs (the glue)
+FEATURE_VALUES = [None, "0x0", "0x0,0x800", "0x0,0x10000", "0x0,0x10800", "0x0,0x4000", "0xFFFFFFFF,0xFFFFFFFF",
+                  "0x4A7FCA00,0xBC354BD0", "0x5A7FFFF7,0x1E", "0x1", "zz", "", "0x1,0x2,0x3", "4A7FCA00"]
+MODEL_VALUES = [None, "AudioAccessory5,1", "AudioAccessory1,1", "AudioAccessory", "AppleTV6,2", "AppleTV3,2", "", "audioaccessory5,1",
+                "XAudioAccessory5,1", "AirPort10,115", "\u00c4udioAccessory"]
+OSVERS_VALUES = [None, "14.5", "13.0", "12.4", "x"]
+STORED_KINDS = [None, "hap", "legacy", "legacy4", "transient", "null", "invalid"]
+PROC_COQ = {"NullPairVerifyProcedure": "PNull", "AirPlayLegacyPairVerifyProcedure": "PLegacy", "AirPlayHapPairVerifyProcedure": "PHap",
+            "AirPlayHapTransientPairVerifyProcedure": "PTransient"}
+KIND_PROC = {"hap": "AirPlayHapPairVerifyProcedure", "legacy": "AirPlayLegacyPairVerifyProcedure", "legacy4": "AirPlayLegacyPairVerifyProcedure",
+             "transient": "AirPlayHapTransientPairVerifyProcedure", "null": "NullPairVerifyProcedure"}
+
+
+def feature_value(text):
+    """own reading of an announced feature string -> None (absent) | 'garbage' | int"""
+    if text is None:
+        return None
+    parts = text.split(",")
+    if not 1 <= len(parts) <= 2:
+        return "garbage"
+    vals = []
+    for part in parts:
+        if not part.startswith("0x") or not 1 <= len(part) - 2 <= 8 or any(ch not in "0123456789abcdefABCDEF" for ch in part[2:]):
+            return "garbage"
+        vals.append(part[2:])
+    return int((vals[1] if len(vals) == 2 else "") + vals[0], 16)
+
+
+def announcements(ctx, full):
+    """announced property sets: feature words (under 'features', 'ft' or both), model strings, OS versions, noise"""
+    out = []
+    for fv in FEATURE_VALUES:
+        for key in ("features", "ft", "both"):
+            for model in MODEL_VALUES:
+                if not full and ctx.rng.random() < 0.5 and not (model or "").startswith("AudioAccessory") and fv not in (None, "zz"):
+                    continue
+                props = {}
+                if fv is not None:
+                    if key in ("features", "both"):
+                        props["features"] = fv
+                    if key == "ft":
+                        props["ft"] = fv
+                    if key == "both":
+                        props["ft"] = ctx.rng.choice([v for v in FEATURE_VALUES if v is not None])
+                elif key == "both":
+                    continue
+                if model is not None:
+                    props["model"] = model
+                osv = ctx.rng.choice(OSVERS_VALUES)
+                if osv is not None:
+                    props["osvers"] = osv
+                for k, v in (("pw", "false"), ("sf", "0x4"), ("flags", "0x244"), ("acl", "0"), ("deviceid", "AA:BB:CC:DD:EE:FF"), ("pk", "00" * 32)):
+                    if ctx.rng.random() < 0.3:
+                        props[k] = v
+                out.append(props)
+    return out
+
+
+def observe_selection(W, case):
+    """extract_credentials(service) and pair_verify(...) of the real code on the announced service"""
+    from pyatv.protocols.airplay.auth import extract_credentials, pair_verify
+    service = announced_service(W, case)
+    try:
+        cr = extract_credentials(service)
+    except BaseException as ex:  # noqa
+        return {"raised": classify(ex), "raised_repr": repr(ex)[:120], "fields": None, "procedure": None}
+    fields = (cr.ltpk, cr.ltsk, cr.atv_id, cr.client_id)
+    try:
+        with Patches(W):
+            proc = type(pair_verify(cr, fake_http(Responder(W, {})))).__name__
+    except BaseException as ex:  # noqa
+        proc = "raised:" + type(ex).__name__
+    return {"raised": None, "fields": fields, "procedure": proc}
+
+
+def stored_fields(W, kind):
+    """own parse of the stored credential string -> 4 fields (None: nothing stored)"""
+    st = stored_string(W, kind)
+    if st is None:
+        return None
+    parts = [bytes.fromhex(x) for x in st.split(":")]
+    if len(parts) == 2:
+        return (b"", parts[1], b"", parts[0])
+    return tuple(parts)
+
+
+def evaluate_announced(W, case):
+    """one (stored credentials, announcement, accessory) case: what is selected, and - for stored HAP
+    credentials - what connecting through the glue does against the accessory of case['spec']."""
+    an = case["announce"]
+    res = {"obs": [], "v1": None, "judge": None, "pd": None, "cpub": None, "cpriv": None, "harness_error": None,
+           "selection": observe_selection(W, case)}
+    if an["stored"] != "hap" or not an.get("connect"):
+        return res
+    obs = [run_announced(p, W, case) for p in ("airplay-glue", "airplay-setup")]
+    res["obs"] = obs
+    ref = next((o for o in obs if o["cpub"] is not None and o["cpriv"] is not None), None)
+    if ref is None:
+        # no HAP pair-verify message was ever sent: nothing was proved to anybody
+        ran = sorted({o["procedure"] for o in obs if o["procedure"]})
+        res["judge"] = {"genuine": False, "why": "no HAP pair-verify exchange took place" + (" (%s ran)" % ", ".join(ran) if ran else ""),
+                        "tables": None, "fields": None}
+        return res
+    pd = respond(W, case["spec"], ref["cpub"])
+    res.update(pd=pd, cpub=ref["cpub"], cpriv=ref["cpriv"], judge=judge(W, None, ref["cpriv"], ref["cpub"], pd))
+    for o in obs:
+        if o["cpub"] is not None and (o["cpub"] != ref["cpub"] or o["m2"] != pd):
+            res["harness_error"] = "client keys / accessory answers differ between the runs of one announced case"
+    return res
+
+
+def selection_errors(W, case, res):
+    """stored credentials must decide which procedure runs, whatever is announced"""
+    an, sel = case["announce"], res["selection"]
+    want = KIND_PROC.get(an["stored"])
+    if want is None or sel["raised"] is not None:
+        return []
+    errs = []
+    if sel["fields"] != stored_fields(W, an["stored"]) or sel["procedure"] != want:
+        errs.append(("C06:airplay:procedure-not-for-stored-credentials",
+                     "stored %s credentials, announced properties %r: extract_credentials/pair_verify selected %s%s instead of %s with the stored credentials"
+                     % (an["stored"], an["props"], sel["procedure"],
+                        "" if sel["fields"] == stored_fields(W, an["stored"]) else " with other credentials (ltpk=%r)" % sel["fields"][0][:12], want)))
+    return errs
+
+
+def coq_sel_case(W, case, res):
+    an, sel = case["announce"], res["selection"]
+
+    def cr(f):
+        return "{| ltpk := %s; ltsk := %s; atv_id := %s; client_id := %s |}" % tuple(lit(x) for x in f)
+
+    def fv(text):
+        v = feature_value(text)
+        return "FAbsent" if v is None else ("FGarbage" if v == "garbage" else "(FFlags %d%%N)" % v)
+
+    sf = stored_fields(W, an["stored"])
+    stored = "None" if sf is None else "(Some %s)" % cr(sf)
+    a = "{| a_features := %s; a_ft := %s |}" % (fv(an["props"].get("features")), fv(an["props"].get("ft")))
+    if sel["raised"] is not None:
+        r = "(SelRaises %s)" % sel["raised"]
+    else:
+        r = "(SelCreds %s)" % cr(sel["fields"])
+    p = "None" if sel["procedure"] not in PROC_COQ else "(Some %s)" % PROC_COQ[sel["procedure"]]
+    return "(%s, %s, %s, %s)" % (stored, a, r, p)
+
+
+def coq_sel_files(items, per=250):
+    files = []
+    for i in range(0, len(items), per):
+        chunk = items[i:i + per]
+        txt = (COQ_PRELUDE + "Definition cases : list scase := [\n%s\n].\nEval vm_compute in (bad_indices check_sel cases).\n"
+               % ";\n".join(coq_sel_case(W, c, r) for W, c, r in chunk))
+        files.append(("sel_%03d" % (i // per), txt, chunk))
+    return files
+
+
+def gen_announced(ctx, W, full):
+    out = []
+    anns = announcements(ctx, full)
+    for k, props in enumerate(anns):
+        for kind in STORED_KINDS:
+            out.append({"family": "announce:selection:stored-" + str(kind), "spec": {}, "cvar": None, "f1": None, "f3": None,
+                        "wseed": W.wseed, "id_len": len(W.acc["A"].ident), "announce": {"stored": kind, "props": props, "connect": False}})
+        # connecting with stored HAP credentials: an impostor without the long-term key (it answers HAP
+        # pair-verify as another accessory would, and plays transient pairing along), and the genuine one
+        transient_bits = isinstance(feature_value(props.get("features", props.get("ft"))), int) and \
+            feature_value(props.get("features", props.get("ft"))) & ((1 << 43) | (1 << 48))
+        if full or transient_bits or (props.get("model") or "").startswith("A") or k % 5 == 0:
+            for name, spec in (("impostor", {"eph": "M", "signer": "B"}), ("genuine", {})):
+                if name == "genuine" and not full and k % 7:
+                    continue
+                out.append({"family": "announce:connect:" + name, "spec": spec, "cvar": None, "f1": None, "f3": None,
+                            "wseed": W.wseed, "id_len": len(W.acc["A"].ident), "announce": {"stored": "hap", "props": props, "connect": True}})
+    return out
 
 
 # --------------------------------------------------------------------------- second verify on the same object
@@ -1437,6 +1723,8 @@ def eval_one(arg):
     try:
         if case.get("twice"):
             _, res = evaluate_twice(W, case["twice"])
+        elif case.get("announce"):
+            res = evaluate_announced(W, case)
         else:
             res = evaluate(W, case, protos=protos)
     except BaseException as ex:  # noqa
@@ -1466,6 +1754,12 @@ def summary(case, res):
         "observed": [{"proto": o["proto"], "verify_credentials": o["raw"], "raised_to_caller": o["surfaced_repr"] or None,
                       "keys_installed": o["keys"], "third_message_sent": o["m3"] is not None} for o in res.get("obs", [])],
         "verify1_direct": None if not res.get("v1") else res["v1"]["raw"],
+        "announced": None if not case.get("announce") else {
+            "stored_credentials": case["announce"]["stored"], "properties": case["announce"]["props"],
+            "extract_credentials": None if not res.get("selection") else (
+                res["selection"]["raised"] or {"ltpk": res["selection"]["fields"][0].hex()[:24], "atv_id": res["selection"]["fields"][2].hex()}),
+            "pair_verify": None if not res.get("selection") else res["selection"]["procedure"],
+            "procedure_that_ran": sorted({o.get("procedure") or "none" for o in res.get("obs", [])})},
     }
 
 
@@ -1473,8 +1767,35 @@ def judge_and_record(ctx, case, res, coq_items):
     if res.get("harness_error"):
         ctx.tie_broken("harness:" + case["family"], json.dumps({"case": case, "error": res["harness_error"]}, default=repr))
         return
+    if case.get("announce"):
+        W = world_of(case)
+        for key, what in selection_errors(W, case, res):
+            ctx.violation(key, what, {"case": case, "summary": summary(case, res)})
+        ctx.count("family:announce")
+        ctx.count("selected:%s:%s" % (case["announce"]["stored"], res["selection"]["raised"] or res["selection"]["procedure"]))
+        if not case["announce"].get("connect"):
+            ctx.case((case["family"], json.dumps(case["announce"], sort_keys=True)), nontrivial=case["announce"]["stored"] is not None)
+            if coq_items is not None:
+                coq_items.append(("sel", W, case, res))
+            return
+        if coq_items is not None:
+            coq_items.append(("sel", W, case, res))
     errs = oracle(case, res)
     j = res["judge"]
+    if j is None:
+        ctx.tie_broken("harness:" + case["family"], json.dumps({"case": case, "error": "no judgement"}, default=repr))
+        return
+    if case.get("announce"):
+        ctx.case((case["family"], json.dumps(case["announce"], sort_keys=True), json.dumps(case["spec"], sort_keys=True)), nontrivial=True,
+                 sample=summary(case, res) if ctx.rng.random() < 0.01 else None)
+        ctx.count("judged:" + ("proves-identity" if j["genuine"] else j["why"].split(" (")[0]))
+        for o in res["obs"]:
+            ctx.count("impl:%s:%s" % (o["proto"], "connected" if o["raw"] == "Accept" and o["surfaced"] is None else (o["surfaced"] or o["raw"] or "nothing-ran")))
+        for key, what in errs:
+            ctx.violation(key, what, {"case": case, "summary": summary(case, res)})
+        if j["tables"] is not None and coq_items is not None:
+            coq_items.append((world_of(case), case, res))
+        return
     if case["family"].startswith(("otherid:", "flip:id+signed", "trunc:id+signed", "long:id+signed")) and not case.get("cvar"):
         sigs = j["tables"]["sig"]
         if j["why"] != "identifier-differs" or not sigs or sigs[-1][1] is not True:
@@ -1575,9 +1896,17 @@ def run(ctx):
                 ctx.violation(key, what, {"case": rcase, "summary": summary(rcase, res)})
             ctx.case((rcase["family"], id_len), nontrivial=False)
             ctx.count("oracle-only")
+    # 2b. the glue that chooses the procedure: stored credential kinds x announced properties
+    #     (selection), and connecting with stored HAP credentials under each announcement
+    Wg = worlds[0]
+    acases = gen_announced(ctx, Wg, full=ctx.thorough)
+    for case, res in zip(acases, eval_many(acases, ())):
+        judge_and_record(ctx, case, res, coq_items)
     # 3. model vs implementation, evaluated inside Coq
     t_impl = time.time() - ctx.t0 - t_build
-    files = coq_files(coq_items, per=100)
+    sel_items = [x[1:] for x in coq_items if x[0] == "sel"]
+    coq_items = [x for x in coq_items if x[0] != "sel"]
+    files = coq_files(coq_items, per=100) + coq_sel_files(sel_items)
     res = common.coq_run_many([(n, t) for n, t, _ in files], ctx.pid, par=16)
     ctx.extra["phase_seconds"] = {"build": round(t_build, 1), "implementation_runs": round(t_impl, 1),
                                   "coq_cases": round(time.time() - ctx.t0 - t_build - t_impl, 1),
@@ -1593,9 +1922,9 @@ def run(ctx):
         for b in bad:
             nbad += 1
             if nbad <= 5:
-                W, case, r = chunk[b]
+                W, case, r = chunk[b][-3:]
                 ctx.tie_broken("correspondence:model-differs-from-implementation", json.dumps({"case": case, "summary": summary(case, r)}, default=repr))
-    ctx.traces = sum(len(r["obs"]) + (1 if r["v1"] else 0) for _, _, r in coq_items)
+    ctx.traces = sum(len(r["obs"]) + (1 if r["v1"] else 0) for _, _, r in coq_items) + len(sel_items)
     ctx.extra["coq_case_files"] = len(files)
     ctx.rule = ("per world (fresh long-term and ephemeral keys from the seed; identifier lengths 17/36/1): the genuine reply; every single-bit flip "
                 "of session public key, encrypted data, identifier and signature (first world: all bits; others: a stride plus first/last byte; thorough: all "
@@ -1603,7 +1932,10 @@ def run(ctx):
                 "identifier / key / signature / session key substituted from a second valid accessory and from an attacker's ephemeral key; replies "
                 "recorded in another session (verbatim, re-wrapped); missing and stray TLV items; stored credentials that do not fit; transport faults "
                 "of every exception class at both exchanges; random multi-damage; a second verify round on the same object answered with the first "
-                "round's reply.  Each case runs MrpProtocol.start, CompanionProtocol.start, verify_connection and (where both fields exist) "
+                "round's reply; the glue: every stored credential kind (none, HAP, legacy, transient, null, invalid) x announced properties (feature words "
+                "incl. the transient-pairing bits under features/ft, absent, garbage; model strings incl. AudioAccessory*/AppleTV*; OS versions; noise) -> "
+                "what extract_credentials/pair_verify select, and with stored HAP credentials connecting through verify_connection(extract_credentials(..)) "
+                "and airplay.setup() against an impostor (no long-term key; also plays transient pairing along) and the genuine accessory.  Each case runs MrpProtocol.start, CompanionProtocol.start, verify_connection and (where both fields exist) "
                 "SRPAuthHandler.verify1; non-trivial = the pairing data carried both fields; distinct by (recipe, credentials variant, faults, id length)")
     ctx.trusted += [
         "hand-written model coq/C06/Model.v (verify1, the three verify_credentials, error_handler, verify_connection mapping) tied by the differential run of this file, evaluated in Coq by vm_compute with the oracles instantiated by tables computed independently with the `cryptography` package",
@@ -1632,7 +1964,9 @@ def replay(ctx, path):
     if res.get("harness_error"):
         print("harness error:", res["harness_error"])
         return 1
-    errs = oracle(case, res)
+    errs = oracle(case, res) if res.get("judge") is not None else []
+    if case.get("announce"):
+        errs += selection_errors(world_of(case), case, res)
     print(json.dumps(summary(case, res), indent=1))
     for key, what in errs:
         print("PROPERTY FAILS: %s  %s" % (key, what))
